@@ -26,7 +26,7 @@
          exists s'' , resolve_op (fixed R) p s [] = ROk s'' [] /\ com s' = com s''. *) *)
 From Coq Require Import List Arith Bool.
 From RV Require Import Model.Recording Proofs.RecordingBase Proofs.RecordingGen Proofs.RecordingSub
-  Proofs.RecordingFk Proofs.RecordingWitness.
+  Proofs.RecordingFk Proofs.RecordingWitness Proofs.RecordingMixed.
 Import ListNotations.
 Open Scope list_scope.
 
@@ -84,6 +84,21 @@ Theorem C22_refuted_retry_stale : exists c, shallow_hit (shipped 3) (run (shippe
   ~ incl (tasks_of c) [1; 3].
 Proof. exact (stale_spec _ _ _ _ _ w_retry). Qed.
 
+(** Configuration [mixed] (record_call_node as shipped, lookup and scheduler repaired): the
+    record-loss witnesses carry over unchanged; recovery is sound as long as no job is replayed by CSE. *)
+Theorem C22_refuted_mixed_retry_loses_records :
+  idem_ok (mixed 3) (mkp topc [1; 2]) (s_base (mixed 3)) [FOk; FFail] = false /\
+  ok_with_rows (resolve_op (mixed 3) (mkp topc [1; 2]) (s_base (mixed 3)) [FOk; FFail]) topc [] = true /\
+  ok_with_args (resolve_op (mixed 3) p_two_args (s_base (mixed 3)) [FOk; FOk; FFail]) (p_call p_two_args) 1 = true /\
+  died_clean (resolve_op (mixed 3) p_two_args (s_base (mixed 3)) [FOk; FFail]) (p_call p_two_args) = true.
+Proof. exact retry_loses_rows_mixed. Qed.
+Theorem C22_recovery_sound_mixed_partial : forall R es, forallb (fun e => negb (is_cse e)) es = true ->
+  forall t a rg c, shallow_hit (mixed R) (run (mixed R) es) t a rg = Some c -> t_task c = t /\ t_args c = a /\ incl (tasks_of c) rg.
+Proof. intros R es Hn t a rg c H. exact (proj2 (shallow_hit_sound_mixed_nocse R es Hn t a rg c H)). Qed.
+Theorem C22_refuted_mixed_stale : exists c, shallow_hit (mixed 3) (run (mixed 3) h_mixed) 5 [10] [3; 4; 5; 6] = Some c /\
+  ~ incl (tasks_of c) [3; 4; 5; 6].
+Proof. exact (stale_spec _ _ _ _ _ (proj1 w_mixed)). Qed.
+
 (** Non-vacuity: the repaired variant completes the witness operations with every row. *)
 Example C22_nonvacuous :
   ok_with_rows (resolve_op (fixed 3) (mkp topc [1; 2]) (s_base (fixed 3)) [FOk; FFail]) topc [1; 2] = true /\
@@ -99,3 +114,4 @@ Print Assumptions C22_retry_no_loss_fixed_partial.
 Print Assumptions C22_retry_idempotent_fixed_bounded.
 Print Assumptions C22_refuted_retry_loses_rows.
 Print Assumptions C22_refuted_nested_retry_loses_argument.
+Print Assumptions C22_recovery_sound_mixed_partial.
